@@ -45,7 +45,7 @@ class FPFormat:
     def max_absolute_value(self) -> float:
         """The maximum absolute value representable by the format."""
         max_exponent = 2 ** (self.exponent_bits - 1) - 1
-        return cast(float, 2**max_exponent * (2 - 2**-self.mantissa_bits))
+        return float(2**max_exponent * (2 - 2**-self.mantissa_bits))
 
     @property
     def min_absolute_normal(self) -> float:
